@@ -130,6 +130,11 @@ class Lattice:
             raise ValueError(kind)
         if positive:
             ctx.roots.append(th)
+            ctx.roots.append(th / 2)
+            if kind == "quarter":
+                ctx.roots.append(self.t)
+            else:
+                ctx.roots.append(self.u)
 
     def concretize(self, env):
         """make env consistent: th := 4 atan(t) / 2 atan(u)  (env: name -> mp number)"""
